@@ -620,7 +620,7 @@ unit(id="at.create_from_instructions", src="src/instruction/at.rs", path=[("fn",
           "!(instruction is Variable && index is Variable) ==> (r is Err <==> (instruction is Array && index is Variable "
           "&& index->Variable_0 is Int && !(-(instruction->Array_0.instructions@.len() as int) <= index->Variable_0->Int_0 "
           "< instruction->Array_0.instructions@.len() as int))) && (r is Err ==> r->Err_0 is IndexOutOfBounds)"),
-         ("at.fold.non_constant_rebuilt_in_place", ["C09", "C04"],
+         ("at.fold.non_constant_rebuilt_in_place", ["C09", "C04", "C07"],
           "!(instruction is Variable && index is Variable) && r is Ok ==> "
           f"r == {OKI}(Instruction::BinOperation(Arc::new(BinOperation {{ lhs: instruction, rhs: index, op: BinOperator::At }})))"),
      ])
